@@ -100,11 +100,12 @@ class Runner:
         self.chk, self.code, self.R = chk, code, R
 
     def run(self, kind, norb, nelec, hs, L, C0, cls, *, ref_energy=None, ref_D=None, tol_e=None, judged=True,
-            what="", tag=None, energy_clause="energy"):
+            what="", tag=None, energy_clause="energy", extra=None):
         """hs: [h_up, h_dn]; C0: [C_up, C_dn] starting orbitals; returns output orbitals or None"""
         out, exc = scf.attempt(self.code.optimize, kind, norb, nelec, np.array(hs), L, C0)
         base = {"kind": kind, "norb": norb, "nelec": list(nelec), "h1": np.array(hs).tolist(), "chol": np.asarray(L).tolist(),
-                "start": [np.asarray(C0[0]).tolist(), np.asarray(C0[1]).tolist()], "cls": cls, "what": what, "tag": tag}
+                "start": [np.asarray(C0[0]).tolist(), np.asarray(C0[1]).tolist()], "cls": cls, "what": what, "tag": tag,
+                **(extra or {})}
         if out is None:
             self.R.push([("orthonormal", float("inf"), 1.0, TOL_ORTH)], finite=False, rtype="orth", judged=True,
                         exception=exc, **base)
@@ -193,9 +194,10 @@ def fixed_points(chk, run: Runner, rng):
         wc = bool(o["wellcond"])
         what = (f"{kind}.optimize at a TLC-certified Hartree-Fock fixed point (norb {norb}, nelec {nelec}, orbitals M/{I['d']}, "
                 f"gap {o['gap_n'] / (s * s):g}, response bound {o['resp_n'] / (s * s):g}, exact energy {Eex:.10g})")
-        # started AT the fixed point
+        # started AT the fixed point (not certified contractive: also the numerical spectral radius of the Roothaan map)
+        extra = None if wc else {"roothaan_radius": scf.roothaan_radius(hs, L, Dex, nelec, kind)}
         run.run(kind, norb, nelec, hs, L, C0, "fixed-point", ref_energy=Eex, ref_D=Dex, tol_e=TOL_EFP, judged=wc,
-                what=what, tag=("at", I["id"]), energy_clause="energy_exact")
+                what=what, tag=("at", I["id"]), energy_clause="energy_exact", extra=extra)
         chk.case(("fp", I["id"]))
         chk.sample({"kind": kind, "norb": norb, "nelec": list(nelec), "orbital_scale_s": s, "class": I["cls"],
                     "h1_up_times_s": I["hn"][0].tolist(), "chol": I["L"].tolist(), "Mu": I["Ms"][0].tolist(),
@@ -292,8 +294,12 @@ def random_hamiltonians(chk, run: Runner, rng):
             core = [np.linalg.eigh(hs[sp])[1][:, :nelec[sp]] for sp in (0, 1)]
             if kind == "rhf":
                 core[1] = core[0]
-            Eref, it, Dref, Cs, es, conv = scf.independent_scf(hs, L, core, nelec)
-            ratio = spec_ratio(hs, L, Cs, es, nelec)
+            for shrink in range(8):                               # weaken the interaction until the spec's bound holds
+                Eref, it, Dref, Cs, es, conv = scf.independent_scf(hs, L, core, nelec)
+                ratio = spec_ratio(hs, L, Cs, es, nelec)
+                if conv and ratio <= 0.25:
+                    break
+                L = 0.7 * L
             if not conv or ratio > 0.25:
                 stats["skipped_not_well_conditioned"] += 1
                 continue
@@ -418,7 +424,9 @@ def eigen_derivative(chk, code, R, rng):
         elif cls == "near-tie":
             stats["near_tie"] += 1
         # gauge-invariant objects assembled from (v, vdot), in the exact eigenbasis
-        e_w, e_x, sc_w, sc_x = 0.0, 0.0, max(1.0, float(np.abs(Ad).max())), 1.0
+        # natural size of the derivative: |Adot| for eigenvalues, |Adot| / (smallest gap) for eigenvectors
+        e_w, e_x, sc_w = 0.0, 0.0, max(1.0, float(np.abs(Ad).max()))
+        sc_x = max(1.0, float(np.abs(Ad).max()) / max(scf.qf(o["min_gap"]), 1e-3))
         for g in o["groups"]:
             mem = [m - 1 for m in g["members"]]
             Pd = sum(np.outer(dv[:, i], v[:, i]) + np.outer(v[:, i], dv[:, i]) for i in mem)
@@ -491,7 +499,8 @@ SELFTEST = [
 
 
 def report(chk, R, verdicts):
-    obs = {"gaponly_fixed_point_runs": 0, "gaponly_fixed_point_left": 0, "tied_cluster_runs": 0, "tied_cluster_agree": 0}
+    obs = {"gaponly_fixed_point_runs": 0, "gaponly_fixed_point_left": 0, "tied_cluster_runs": 0, "tied_cluster_agree": 0,
+           "rho_left": [], "rho_kept": []}
     worst = {}
     for r in R.recs:
         k, v = R.info[r["id"]], verdicts[r["id"]]
@@ -507,6 +516,7 @@ def report(chk, R, verdicts):
             if k["rtype"] == "scf":
                 obs["gaponly_fixed_point_runs"] += 1
                 obs["gaponly_fixed_point_left"] += int(not v["ok"])
+                obs["rho_kept" if v["ok"] else "rho_left"].append(round(k.get("roothaan_radius", float("nan")), 3))
             elif k["rtype"] == "eigh-cluster-obs":
                 obs["tied_cluster_runs"] += 1
                 obs["tied_cluster_agree"] += int(v["ok"])
@@ -532,7 +542,9 @@ def report(chk, R, verdicts):
         chk.violation(site_of(k, failed), what, {x: y for x, y in k.items() if x not in ("what",)} | {"verdict": v})
     chk.note("observations_not_judged", {
         "fixed_points_certified_with_gap>=1_but_not_contractive": {
-            "runs": obs["gaponly_fixed_point_runs"], "moved_or_energy_changed_after_30_iterations": obs["gaponly_fixed_point_left"]},
+            "runs": obs["gaponly_fixed_point_runs"], "moved_or_energy_changed_after_30_iterations": obs["gaponly_fixed_point_left"],
+            "numerical_spectral_radius_of_the_roothaan_map_where_moved": sorted(obs["rho_left"]),
+            "numerical_spectral_radius_of_the_roothaan_map_where_kept": sorted(obs["rho_kept"])},
         "cluster_projector_and_summed_eigenvalue_derivatives_in_(near-)tied_spectra": {
             "runs": obs["tied_cluster_runs"], "equal_to_exact_within_1e-8": obs["tied_cluster_agree"]}})
     chk.note("worst_judged_residual_over_scale", {k: float(f"{x:.3e}") for k, x in sorted(worst.items())})
@@ -567,8 +579,9 @@ def run(chk: Check):
         "independent solver's solution, is <= 1/4; the molecules (H2, H4, LiH, H3, [thorough: H2O, H4 triplet, Li], sto-3g, "
         "Loewdin-orthogonalised, ERIs factorised exactly by eigen-decomposition) are judged unconditionally",
         "tolerances: orthonormality 1e-10; occupied projector at a fixed point 1e-8; energy at a fixed point 1e-8*max(1,|E|); "
-        "energy from a perturbed start 1e-6*max(1,|E|); eigen-derivatives 1e-8*max(1,|exact|,|Adot|), judged when every gap "
-        ">= 1e-3; (near) ties: finiteness only - cluster-level agreement is reported as an observation",
+        "energy from a perturbed start 1e-6*max(1,|E|); eigenvalue derivatives 1e-8*max(1,|exact|,|Adot|), projector "
+        "derivatives 1e-8*max(1,|exact|,|Adot|/min gap) (round-off of an eigenvector derivative is eps*|A||Adot|/gap^2), "
+        "judged when every gap >= 1e-3; (near) ties: finiteness only - cluster-level agreement is reported as an observation",
         "energies of the code's output are computed by numpy from D = C C^T (the library's energy kernels are C02's subject)",
         "eigen-derivatives are compared through gauge-invariant objects (sum of eigenvalue derivatives and derivative of the "
         "spectral projector per cluster, expressed in the exact eigenbasis), never through LAPACK's eigenvector signs/order"]
